@@ -22,6 +22,7 @@ THEOREMS = ['Otel.C17.' + t for t in (
     'foldl_observe_sums', 'meter_sum_storage', 'meter_sum_output', 'recsFor_length',
     'meter_observable_cumulative', 'meter_observable_delta',
     'sginv_run', 'latestRec_lopsOf', 'meter_sync_gauge_reports_latest',
+    'foldl_observe_gauge', 'increasing_gobs', 'gginv_run', 'meter_observable_gauge_reports_latest',
 )]
 _SRCS = sdk_sources('common', 'resource', 'version', 'metrics')
 HARNESSES = [Harness('s_c17', ['harness/s_c17.cc'], sdk_srcs=_SRCS, includes=SDK_INCLUDES),
@@ -356,10 +357,10 @@ LEVEL_NOTE = ('Trusted: Lean kernel (axioms propext/Quot.sound/Classical.choice 
               'otherwise the second Record overwrites the first delta (D21_witness; the unchanged code behaves so, semantics open); '
               'sample times of last-value aggregations strictly increase from one record to the next (the real clock can tie: the '
               'harness waits for the clock to advance between operations, the baseline marks the last-value tests flaky). '
-              'Partial: for observable counters and synchronous gauges the lifting to meter histories is proved (meter_sum_storage, '
-              'meter_observable_cumulative/_delta, meter_sync_gauge_reports_latest - the latter derives the increasing sample times '
-              'from the meter clock); the observable-gauge theorem is stated per storage over the cycles that storage sees, with '
-              'increasing sample times as a hypothesis (the meter stamps them clock+1, clock+2, ... by construction). A negative '
+              'Partial: the liftings to meter histories are proved for observable counters, synchronous gauges and observable gauges '
+              '(Props/C17Meter.lean; the increasing sample times are derived from the meter clock); the observable-gauge statement at '
+              'the meter names the latest observation through the stamped projection gcyclesOf (a value-only restatement exists for '
+              'synchronous gauges: latestGaugeValue). A negative '
               '"total" on a monotonic observable counter is recorded as 0 (modelled, excluded from the value clauses). View '
               'attribute filters are ignored on the observable path (D22, belongs to C08/C19). FP rounding and int64 overflow are not generated.')
 DESIGN_REF = 'DESIGN.md section 4, C17; Appendix D'
